@@ -746,6 +746,15 @@ class Tracker:
             if j is not None and not j.wild and any(n for v, n, m in j.deg):
                 j = None             # a negative factor swaps max and min
             return out(j)
+        if name == "np.clip" and len(args) == 3:
+            # clamping to fixed bounds is meaningful for scale-free values
+            j = h0
+            for x in args[1:]:
+                j = self.plain(join(j, self.plain(self.of(x)))) \
+                    if j is not None else None
+            if j is not None and not j.wild and any(n for v, n, m in j.deg):
+                j = None
+            return out(j)
         if name in ("np.argsort", "np.argmax", "np.argmin", "np.lexsort",
                     "np.sort", "np.max", "np.min", "np.amax", "np.amin",
                     "np.count_nonzero", "np.unique"):
